@@ -55,6 +55,19 @@ def gen_wide(rng, ks=WIDE_K):
     return cfg_line(k, caps, rng.choice(MODES)) + " | " + " ".join(body + ["r0"] * (n + 3) + ["z"])
 
 
+def gen_verywide(rng):
+    """127 … 300 unbuffered inputs, a handful of elements, offered on the LAST inputs first: every input is listened to from
+    the start, whatever its position in the argument list (direct oracle only: k is far beyond the model driver's reach)"""
+    k = rng.choice([127, 128, 129, 130, 200, 257, 300])
+    js = rng.sample(range(k - 8, k), 3) + rng.sample(range(0, k - 8), 2)
+    xs = rng.sample(range(1, 1000), len(js))
+    body = []
+    for j, x in zip(js, xs):
+        body += ["s%d:%d" % (j, x), "r0"]
+    closes = ["c%d" % j for j in range(k)]
+    return "stage=Join k=%d cap=0 caps=%s" % (k, ",".join(["0"] * k)) + " | " + " ".join(body + closes + ["r0"] * 4 + ["z"])
+
+
 def gen_burst(rng):
     """the consumer stalls until the output buffer (capacity k) is full, then one input receives a burst of elements
     (made back to back: the copier meets them all at once), possibly a second burst, then everything is drained"""
@@ -329,6 +342,7 @@ def run(ctx):
         groups = [("random", [gen_script(ctx.rng) for _ in range(600 * T)]),
                   ("mid", [gen_wide(ctx.rng, MID_K) for _ in range(30 * T)]),
                   ("wide", [gen_wide(ctx.rng, WIDE_K_THOROUGH if ctx.thorough() else WIDE_K) for _ in range(40 * T)]),
+                  ("verywide", [gen_verywide(ctx.rng) for _ in range(6 * T)]),
                   ("burst", [gen_burst(ctx.rng) for _ in range(120 * T)]),
                   ("grouped", [gen_grouped(ctx.rng) for _ in range(80 * T)])]
     binp, err = ls.build(ctx)
